@@ -6,6 +6,6 @@ CHECK = {
   'level_note': 'N <= 2 clients, preemption bound 0-3 depending on scenario size; virtual time: a timed wait expires at quiescence for free, or earlier at the cost of one deviation. OS-level jitter and 200-connection bursts are outside the technique (sampling).',
   'rule': 'every schedule of every scenario is one trace; transitions = schedule points executed',
   'parts': [{'bin': 's_c14_server', 'flavour': 'asan', 'deadline': {'quick': 500, 'thorough': 3000}}],
-  'bounds': {'quick': '0 clients: <=3 deviations (preemptions or early timer expiries); 1 client: <=2; 2 clients: <=1', 'thorough': '0 clients: <=4; 1 client: <=3; 2 clients: <=2'},
+  'bounds': {'quick': '0 clients: <=3 deviations (preemptions or early timer expiries); 1 client: <=2; 2 clients: <=1', 'thorough': '0 clients: <=4; 1 client that closes early: <=3, 1 client served + late client: <=2; 2 clients, both closing early (TCP): <=2, other pairs: <=1'},
   'assumptions': ['sequential consistency', 'vnet stream/select model', 'deferred-cancellation model of pthread_cancel'],
 }
